@@ -32,6 +32,9 @@ func runExtras(e *Engine, o checkOpts) []*extraResult {
 	switch o.prop {
 	case "C17":
 		out = append(out, splitLemmaCheck(o), regexTranslatorCheck(e, o))
+	case "C16":
+		out = append(out, boundedGoTest(o, "routebase-split", "bounded/routebase_bounded_test.go", ".", "TestGvcBoundedRouteBase", 7, 9,
+			"slash normalisation in routeBase (strings.Trim + SplitN): bucket/key addressed by every path over {a,/,.} equals the specification and is stable under extra leading/trailing slashes"))
 	}
 	return out
 }
@@ -198,4 +201,47 @@ func unquoteGo(s string) (string, error) {
 		b.WriteByte(s[i])
 	}
 	return b.String(), nil
+}
+
+// boundedGoTest runs a bounded exhaustive Go test against the real code through -overlay.
+func boundedGoTest(o checkOpts, name, file, pkgRel, test string, quickBound, thoroughBound int, what string) *extraResult {
+	start := time.Now()
+	res := &extraResult{Name: name}
+	bound := quickBound
+	if o.tier == "thorough" {
+		bound = thoroughBound
+	}
+	dir, _ := os.MkdirTemp("", "gvc-bounded-")
+	defer os.RemoveAll(dir)
+	pkgDir := filepath.Join(o.repo, pkgRel)
+	ov := fmt.Sprintf(`{"Replace":{%q:%q}}`, filepath.Join(pkgDir, "zz_gvc_bounded_test.go"), filepath.Join(o.verifDir, file))
+	ovFile := filepath.Join(dir, "ov.json")
+	os.WriteFile(ovFile, []byte(ov), 0o644)
+	cmd := exec.Command("go", "test", "-overlay", ovFile, "-vet=off", "-count=1", "-timeout", "600s", "-run", "^"+test+"$", "-v", ".")
+	cmd.Dir = pkgDir
+	cmd.Env = append(os.Environ(), "GOFLAGS=-mod=mod", "GOPROXY=off", "GOSUMDB=off", "GOTOOLCHAIN=local", fmt.Sprintf("GVC_BOUND=%d", bound))
+	out, _ := cmd.CombinedOutput()
+	cases := 0
+	ok := false
+	var fails []string
+	for _, l := range strings.Split(string(out), "\n") {
+		if strings.HasPrefix(l, "BOUNDED-OK") {
+			ok = true
+			fmt.Sscanf(l, "BOUNDED-OK cases=%d", &cases)
+		}
+		if strings.HasPrefix(l, "BOUNDED-FAIL") {
+			fails = append(fails, l)
+		}
+	}
+	if !ok {
+		body := "obligation: bounded stand-in " + name + " (" + what + ")\n"
+		if len(fails) > 0 {
+			body += "failing inputs on the real code:\n" + strings.Join(fails, "\n") + "\n"
+		} else {
+			body += "the bounded test did not complete:\n" + truncate(string(out), 2000) + "\n"
+		}
+		res.Violations = append(res.Violations, extraViolation{Name: "mismatch", Body: body, Confirmed: len(fails) > 0})
+	}
+	res.Summary = map[string]interface{}{"check": what, "bounded": true, "bound": fmt.Sprintf("length <= %d", bound), "cases": cases, "wall_s": time.Since(start).Seconds()}
+	return res
 }
